@@ -87,6 +87,19 @@ class IGen(Gen):
             a["pre"] = a["pre"][:1]
         if a["pre"] and r.random() < 0.4:
             a["pre"] = []
+        # a deliberate overlap: a quantified precondition over a parameterised fluent of the whole problem
+        wide = [f for f in allf if f["sig"] and f["type"]["k"] in ("bool", "int", "real")]
+        if wide and self.o["quantifiers"] and r.random() < 0.2:
+            f = r.choice(wide)
+            vt = f["sig"][0]["type"]
+            params = {p["name"]: p["type"] for p in a["params"]}
+            P["fluents"] = [f]
+            try:
+                body = self.bool_expr(r.choice([0, 0, 1]), params, {"q": vt}, noconst=True)
+            finally:
+                P["fluents"] = allf
+            if "'q'" in repr(body):
+                a["pre"].append(E(r.choice(["exists", "exists", "forall"]), [body], vars_=[{"name": "q", "type": vt}]))
         return a
 
 
@@ -458,7 +471,7 @@ def run(ctx):
             ctx.violation("T1|orders|" + res.violated, "the order utilities of Deorder.tla disagree (%s)" % res.violated,
                           {"n": n, "trace": [s["vars"] for s in res.trace]})
     # ---- corpus, plans, real code -----------------------------------------------------------
-    n, M, per = (64, 5, 7) if q else (700, 7, 14)
+    n, M, per = (96, 5, 7) if q else (400, 6, 10)
     probs, found, recs, skipped, dropped = pipeline(ctx, n, M, per)
     res = judge(ctx, "deorder", probs, recs, ["impl", "design"])
     info = digest(ctx, probs, recs, res)
